@@ -400,13 +400,27 @@ U_DeleteAll(w) ==                          \* ZoneUpdate::DeleteAllRecords
   /\ Wrote(w, RemoveAllAt(store, wnv[w], Apex), {}, [a |-> "U_DeleteAll", w |-> w])
 
 \* commit(): publish_new_zone_version takes versions.write() twice
-CommitUpdateCurrent(w) ==
-  /\ wst[w] = "open"
-  /\ current' = wnv[w] /\ committed' = [committed EXCEPT ![wnv[w]] = pend]
+\* bump_soa_serial: commit(true) stores a copy of the published SOA with the serial
+\* increased -- as content of the NEW version only -- unless the writer replaced
+\* the SOA itself (commit(): old_soa.is_some() && (new_soa.is_none() || new == old))
+BumpNeeded(w) ==
+  LET old == LiveVals(store, current, Apex, "SOA")
+      new == LiveVals(store, wnv[w], Apex, "SOA")
+  IN old # {} /\ (new = {} \/ new = old)
+BumpedSoa == {x + 1 : x \in LiveVals(store, current, Apex, "SOA")}
+CommitUpdateCurrent(w, bump) ==
+  /\ wst[w] = "open" /\ (bump => wkind[w] = "W")    \* ZoneUpdater always commits with commit(false)
+  /\ LET doBump == bump /\ BumpNeeded(w)
+         S1 == IF doBump THEN [store EXCEPT !.ent[Apex] = @ \cup {"SOA"},
+                                            !.rr[Apex]["SOA"] = VUpdate(@, wnv[w], RS(BumpedSoa))]
+               ELSE store
+         P1 == IF doBump THEN SetRRset(pend, Apex, "SOA", BumpedSoa) ELSE pend
+     IN /\ store' = S1 /\ pend' = P1
+        /\ current' = wnv[w] /\ committed' = [committed EXCEPT ![wnv[w]] = P1]
+        /\ snap' = [snap EXCEPT ![wnv[w]] = S1]
   /\ wst' = [wst EXCEPT ![w] = "mid"]
-  /\ act' = [a |-> "CommitUpdateCurrent", w |-> w]
-  /\ snap' = [snap EXCEPT ![wnv[w]] = store]
-  /\ UNCHANGED <<store, allv, wlock, wkind, wnv, dirty, readers, phase, zf, pend, nops>>
+  /\ act' = [a |-> "CommitUpdateCurrent", w |-> w, bump |-> bump]
+  /\ UNCHANGED <<allv, wlock, wkind, wnv, dirty, readers, phase, zf, nops>>
 CommitPushVersion(w) ==
   /\ wst[w] = "mid"
   /\ allv' = allv \cup {wnv[w]}
@@ -463,7 +477,8 @@ Next ==
   \/ Build
   \/ \E w \in Writers :
        \/ \E kind \in OpFamilies \cap {"W", "U"} : AcquireWriteLock(w, kind)
-       \/ Open(w) \/ CommitUpdateCurrent(w) \/ CommitPushVersion(w) \/ DropWriter(w)
+       \/ Open(w) \/ CommitUpdateCurrent(w, FALSE) \/ CommitUpdateCurrent(w, TRUE)
+       \/ CommitPushVersion(w) \/ DropWriter(w)
        \/ WriteOp(w)
   \/ \E r \in Readers :
        \/ ReaderAcquire(r) \/ ReaderRelease(r) \/ ReaderWalk(r)
@@ -504,7 +519,7 @@ AbortInvisible ==      \* nothing of an abandoned version is left anywhere
 AtomicVisibility ==    \* what a fresh reader sees changes only by the commit step, all at once
   [][(phase = "live" /\ phase' = "live") =>
        /\ current' = current => ContentOf(store, current)' = ContentOf(store, current)
-       /\ current' # current => ContentOf(store, current)' = pend]_vars
+       /\ current' # current => ContentOf(store, current)' = pend']_vars
 SingleWriter ==
   /\ Cardinality({w \in Writers : wst[w] # "idle"}) <= 1
   /\ \A w \in Writers :
